@@ -261,6 +261,10 @@ func runC04(args []string) {
 	}
 	if cf := fl.str("cases", ""); cf != "" {
 		readNDJSON(cf, func(_ int, c obj) {
+			if c["kind"] == "nilenv" {
+				tw.emit(c04NilEnvEvent(c["name"].(string)))
+				return
+			}
 			ev := c04Event(c)
 			if pid, ok := c["probe"].(string); ok && pid != "" {
 				ev["probe"] = pid
@@ -275,6 +279,9 @@ func runC04(args []string) {
 			c["repeats"] = R
 			c = normalize(c)
 			add(c, c04Event(c))
+			if i%5 == 0 {
+				tw.emit(c04NilEnvEvent(fmt.Sprintf("C04N_%d_%d", fl.int("seed", 1), i)))
+			}
 		}
 	}
 	writeSummary(fl.str("summary", ""), obj{"events": tw.n, "strings": nstr, "samples": samples})
@@ -291,4 +298,35 @@ var c04Probes = []struct {
 	// map iteration order, so repeated runs on the same input differ
 	{"F17-colliding-go-map-keys", `{"steps":[{"command":"c","env":{"$A":"from-dollar-A","a":"from-a"}}]}`, obj{"A": "a"},
 		[]any{[]any{"$A", []any{tokRef("A", "plain")}}}},
+}
+
+
+// c04NilEnvEvent: two pipelines interpolated with a NIL environment, one after the other in this process. The first
+// defines a variable in its env block and uses it; the second only refers to it. With no caller environment each
+// call starts from an empty one: nothing the first pipeline defined may be visible to the second.
+func c04NilEnvEvent(name string) obj {
+	ev := obj{"kind": "nilenv", "name": name, "val": "leak-" + name, "a": "", "b": "", "err": false}
+	p, msg := guarded(func() {
+		run := func(doc string) string {
+			pl, err := pipeline.Parse(strings.NewReader(doc))
+			if err != nil {
+				panic("driver: " + err.Error())
+			}
+			if err := pl.Interpolate(nil, false); err != nil {
+				ev["err"] = true
+				return ""
+			}
+			return pl.Steps[0].(*pipeline.CommandStep).Command
+		}
+		ev["a"] = run(fmt.Sprintf(`{"env":{%q:%q},"steps":[{"command":"a ${%s}"}]}`, name, "leak-"+name, name))
+		ev["b"] = run(fmt.Sprintf(`{"steps":[{"command":"b ${%s-unset} ${%s}|"}]}`, name, name))
+	})
+	ev["panic"] = p
+	if p {
+		if strings.HasPrefix(msg, "driver:") {
+			fatal("%s", msg)
+		}
+		ev["panicmsg"] = msg
+	}
+	return ev
 }
